@@ -73,7 +73,7 @@ func zzPSGhostFull(g zzPSGhost) bool {
 }
 
 func zzPSOperands(twoNames bool) (a, b *PortSet, ga, gb zzPSGhost, x int64) {
-	n := zzMaxIvPS()
+	n := 2 // in both tiers (three intervals in both operands is not a bound that was run to completion)
 	a, b = zzAnyPortSet("a", n, twoNames), zzAnyPortSet("b", n, false)
 	x = zzProbe()
 	return a, b, zzPSSnap(a), zzPSSnap(b), x
